@@ -96,8 +96,8 @@ func ruleP01ErrChecked(p *Prog, r *Report) {
 // errsCell: the variable of parse whose value is returned as the error list.
 func errsCell(parse *ssa.Function) *ssa.Alloc {
 	for _, ret := range returnsOf(parse) {
-		if len(ret.Results) == 2 && !isNilConst(ret.Results[1]) {
-			if u, ok := strip(ret.Results[1]).(*ssa.UnOp); ok && u.Op == token.MUL {
+		if len(ret.Results) == 2 && !isNilConst(retResult(ret, 1)) {
+			if u, ok := strip(retResult(ret, 1)).(*ssa.UnOp); ok && u.Op == token.MUL {
 				return cellOf(u.X)
 			}
 		}
@@ -208,7 +208,7 @@ func ruleP01NoRecord(p *Prog, r *Report) {
 	}
 	for i, ret := range returnsOf(parse) {
 		key := fmt.Sprintf("parse:return#%d", i)
-		if !isNilConst(ret.Results[0]) {
+		if !isNilConst(retResult(ret, 0)) {
 			empty := false
 			for _, g := range guardsOf(ret.Block()) {
 				if x, isNil, ok := nilFact(g); ok && isNil {
@@ -217,9 +217,9 @@ func ruleP01NoRecord(p *Prog, r *Report) {
 					}
 				}
 			}
-			r.check(empty && isNilConst(ret.Results[1]), rule, key, p.instrPos(ret), "a record is returned only when the error list is empty", "a record can be returned although errors were recorded")
+			r.check(empty && isNilConst(retResult(ret, 1)), rule, key, p.instrPos(ret), "a record is returned only when the error list is empty", "a record can be returned although errors were recorded")
 		} else {
-			u, ok := strip(ret.Results[1]).(*ssa.UnOp)
+			u, ok := strip(retResult(ret, 1)).(*ssa.UnOp)
 			r.check(ok && cellOf(u.X) == cell, rule, key, p.instrPos(ret), "no record -> the collected errors are returned", "no record is returned but the collected errors are not returned either")
 		}
 	}
@@ -493,7 +493,7 @@ func ruleP01Lex(p *Prog, r *Report) {
 				continue
 			}
 			msg := rejectComplete(noMatch, func(ret *ssa.Return) string {
-				if p.nilnessAt(ret.Block(), ret.Results[1], 0) != nnNonNil {
+				if p.nilnessAt(ret.Block(), retResult(ret, 1), 0) != nnNonNil {
 					return "no error"
 				}
 				return ""
@@ -545,7 +545,7 @@ func ruleP01Lex(p *Prog, r *Report) {
 					succ = b.Succs[1]
 				}
 				if rejectComplete(succ, func(ret *ssa.Return) string {
-					if p.nilnessAt(ret.Block(), ret.Results[1], 0) != nnNonNil {
+					if p.nilnessAt(ret.Block(), retResult(ret, 1), 0) != nnNonNil {
 						return "no error"
 					}
 					return ""
@@ -585,13 +585,13 @@ func ruleP16Order(p *Prog, r *Report) {
 			rej, acc = acc, rej
 		}
 		m1 := rejectComplete(rej, func(ret *ssa.Return) string {
-			if !isNilConst(ret.Results[0]) || p.nilnessAt(ret.Block(), ret.Results[1], 0) != nnNonNil {
+			if !isNilConst(retResult(ret, 0)) || p.nilnessAt(ret.Block(), retResult(ret, 1), 0) != nnNonNil {
 				return "not (nil, error)"
 			}
 			return ""
 		})
 		m2 := rejectComplete(acc, func(ret *ssa.Return) string {
-			if isNilConst(ret.Results[0]) || !isNilConst(ret.Results[1]) {
+			if isNilConst(retResult(ret, 0)) || !isNilConst(retResult(ret, 1)) {
 				return "not (range, nil)"
 			}
 			return ""
@@ -631,7 +631,7 @@ func ruleP16Order(p *Prog, r *Report) {
 			continue
 		}
 		for _, ret := range returnsOf(m) {
-			bo, ok := normCmp(ret.Results[0])
+			bo, ok := normCmp(retResult(ret, 0))
 			good := false
 			if ok && bo.Op == c.op {
 				good = isOffsetOf(bo.X, m.Params[0]) && isOffsetOf(bo.Y, m.Params[1])
@@ -814,6 +814,14 @@ func ruleP16AmPm(p *Prog, r *Report) {
 		}
 	}
 	if pr == nil {
+		// the same selection as a helper function or method of two results (int, string)
+		for _, h := range helpersCalledFrom([]*ssa.Function{ts}) {
+			if res := h.Signature.Results(); res.Len() == 2 && isIntType(res.At(0).Type()) && res.At(1).Type().String() == "string" {
+				pr = h
+			}
+		}
+	}
+	if pr == nil {
 		r.undecided(rule, "print", p.pos(ts.Pos()), "the (hour, suffix) selection of ToString is not a local function literal")
 		return
 	}
@@ -902,8 +910,8 @@ func ruleP16AmPm(p *Prog, r *Report) {
 			continue
 		}
 		seen[cls] = true
-		sfx, _ := constString(ret.Results[1])
-		pl := polyOf(ret.Results[0])
+		sfx, _ := constString(retResult(ret, 1))
+		pl := polyOf(retResult(ret, 0))
 		good := sfx == w.sfx
 		if w.sym {
 			good = good && len(pl.Terms) == 1 && pl.C == w.delta
@@ -1087,7 +1095,7 @@ func ruleP16Plus(p *Prog, r *Report) {
 		// does the true edge lead to the error return?
 		toErr := false
 		for rb := range reachableFrom(b.Succs[0], nil) {
-			if ret, isRet := rb.Instrs[len(rb.Instrs)-1].(*ssa.Return); isRet && isNilConst(ret.Results[0]) && rb.Dominates(rb) {
+			if ret, isRet := rb.Instrs[len(rb.Instrs)-1].(*ssa.Return); isRet && isNilConst(retResult(ret, 0)) && rb.Dominates(rb) {
 				if b.Succs[0].Dominates(rb) || b.Succs[0] == rb || len(rb.Preds) > 0 && reachesOnlyError(b.Succs[0]) {
 					toErr = true
 				}
@@ -1120,7 +1128,7 @@ func reachesOnlyError(b *ssa.BasicBlock) bool {
 	ok := false
 	for rb := range reachableFrom(b, nil) {
 		if ret, isRet := rb.Instrs[len(rb.Instrs)-1].(*ssa.Return); isRet {
-			if !isNilConst(ret.Results[0]) {
+			if !isNilConst(retResult(ret, 0)) {
 				return false
 			}
 			ok = true
